@@ -884,3 +884,28 @@ vharness! {
         kani::cover!(a == 0 && b == 1, "store after load");
     }
 }
+
+// ---- helpers for the DPOR-rule harness in execution::verif
+
+pub(crate) fn action(k: u8) -> Action {
+    match k {
+        0 => Action::Load,
+        1 => Action::Store,
+        _ => Action::Rmw,
+    }
+}
+
+pub(crate) fn state_with_accesses(last: Option<(usize, Raw)>, last_non_load: Option<(usize, Raw)>) -> State {
+    let mut st = blank_state();
+    st.cnt = 1;
+    st.last_access = last.map(|(p, c)| Access::new(p, &vv(c)));
+    st.last_non_load_access = last_non_load.map(|(p, c)| Access::new(p, &vv(c)));
+    st
+}
+
+pub(crate) fn accesses(st: &State) -> (Option<(usize, Raw)>, Option<(usize, Raw)>) {
+    (
+        st.last_access.as_ref().map(|a| (a.path_id(), vv_raw(a.version()))),
+        st.last_non_load_access.as_ref().map(|a| (a.path_id(), vv_raw(a.version()))),
+    )
+}
